@@ -53,7 +53,7 @@ def generate(seed, tier):
         take = rnd.sample(otus, min(len(otus), 2 if quick else 8))
         for t in take:
             cs = t.cases if len(t.cases) <= (12 if quick else 40) else rnd.sample(t.cases, 12 if quick else 40)
-            tus.append(TU('corpus_' + t.name, cs, headers=t.headers, weight=t.weight, pre=t.pre, only_cfgs='*asan*' if quick else None))
+            tus.append(TU('corpus_' + t.name, cs, headers=t.headers, weight=t.weight, pre=t.pre, only_cfgs=('*asan*', 'gcc.avx2.14.O3') if quick else None))     # sanitizer builds + one optimised build with the allocation monitor armed
     # (P2)-(P4) dedicated
     cases = []
     sizes = [1, 2, 3, 5, 7, 9, 15, 17, 31, 33]
@@ -72,7 +72,7 @@ def generate(seed, tier):
     tus += [TU('c07_%03d' % i, ch, headers=['vp_c07.h']) for i, ch in enumerate(chunk(cases, 6))]
     if quick:
         cfgs = [Cfg('sse2', '14', 'O1', san='asan'), Cfg('avx2', '14', 'O2', san='asan'), Cfg('avx512', '17', 'O1', san='asan'),
-                Cfg('sse2', '14', 'O2', only_tus='c07_*'), Cfg('avx2', '14', 'O3', only_tus='c07_*'), Cfg('avx512', '17', 'O2', only_tus='c07_*'),
+                Cfg('sse2', '14', 'O2', only_tus='c07_*'), Cfg('avx2', '14', 'O3'), Cfg('avx512', '17', 'O2', only_tus='c07_*'),
                 Cfg('avx2', '14', 'O2', checks=True, only_tus='c07_*')]
     else:
         cfgs = [Cfg(isa, '17', 'O1', san='asan') for isa in ('sse2', 'avx2', 'avx512')] + [Cfg('avx2', '14', 'O2', san='asan'), Cfg('avx512', '14', 'O2', san='asan')]
